@@ -14,19 +14,11 @@ open GMod RRBlup GSpec
 def energyQ (A : List (List Rat)) (b x : List Rat) : Rat :=
   (1/2 : Rat) * dot x (A.map (fun r => dot r x)) - dot b x
 
-/-- `‖b − A x‖∞` -/
-def residInf (A : List (List Rat)) (b x : List Rat) : Rat :=
-  (List.zipWith (fun r bi => absQ (bi - dot r x)) A b).foldl maxQ 0
-
 /-- **Spec oracle for a direct `gauss_seidel(A, b, atol, maxiter)` call** (A symmetric, positive
     diagonal): the returned iterate has the length of `b` and never has larger energy than the all-zero
     start (`rel` only absorbs the float rounding of the reported iterate) -/
 def specGs (rel : Rat) (A : List (List Rat)) (b x : List Rat) : Bool :=
   x.length == b.length && decide (energyQ A b x ≤ rel * (1 + absQ (dot b x)))
-
-/-- largest off-diagonal absolute row sum -/
-def offMax (A : List (List Rat)) : Rat :=
-  (A.zipIdx.map (fun ri => ((ri.1.zipIdx.filter (fun cj => cj.2 != ri.2)).map (fun cj => absQ cj.1)).sum)).foldl maxQ 0
 
 /-- what is evaluated per trait: (descent ok, normal equations ok, residual, tolerance, criterion(û), criterion(0)) -/
 def traitClauses (rel reltol atol : Rat) (Zp : List (List Rat)) (npoly : Nat) (y : List Rat) (ridge : Rat)
@@ -35,9 +27,10 @@ def traitClauses (rel reltol atol : Rat) (Zp : List (List Rat)) (npoly : Nat) (y
   let e0 := psse y Zp ridge (u.map (fun _ => 0))
   let A := ztzPlusRidge Zp npoly ridge
   let b := zty Zp npoly (center y)
-  let res := residInf A b u
+  let res := residMax A b u
   let binf := b.foldl (fun m v => maxQ m (absQ v)) 0
-  let tolr := maxQ (reltol * maxQ 1 binf) (2 * atol * offMax A)
+  -- second term: the bound the repaired code itself tests, `2*gsatol*max_i sum_j |A_ij|`
+  let tolr := maxQ (reltol * maxQ 1 binf) ((atol + atol) * rowAbsMax A)
   (decide (e1 ≤ e0 + rel * (1 + absQ e0)), decide (res ≤ tolr), res, tolr, e1, e0)
 
 structure FitVerdict where
@@ -55,7 +48,7 @@ def FitVerdict.ok (v : FitVerdict) : Bool := v.shapes && v.intercept && v.mono &
     chosen per trait:
     (1) intercept = training mean; (2) monomorphic markers have effect exactly 0;
     (3) penalised SSE(û) ≤ penalised SSE(0); (4) if n > (number of polymorphic markers):
-        ‖(Z'Z + ridge I)û − Z'(y − ȳ)‖∞ ≤ max(reltol·max(1,‖Z'y_c‖∞), 2·atol·max_i Σ_{j≠i}|A_ij|) -/
+        ‖(Z'Z + ridge I)û − Z'(y − ȳ)‖∞ ≤ max(reltol·max(1,‖Z'y_c‖∞), 2·atol·max_i Σ_j|A_ij|) -/
 def specFit (rel abs_ reltol atol : Rat) (Y Z : List (List Rat)) (p t : Nat) (ridges : List Rat)
     (beta ua : List (List Rat)) (checkNE : Bool) : FitVerdict :=
   let n := Z.length
